@@ -6,7 +6,10 @@ MCInsts == {Zero, One, Neg(One), FromInt(999999), FromInt(-999999), FromInt(1000
             MaxInstantBig, Neg(MaxInstantBig), Sub(MaxInstantBig, One), Add(Neg(MaxInstantBig), One),
             K9(FromInt(1700000000)), Neg(K9(FromInt(1700000000))), Add(K9(FromInt(-86400)), FromInt(-1)),
             \* +-2^63 ns and 2^63 - 1: differences from zero that are the extremes of a 64-bit integer
-            P63, Neg(P63), Sub(P63, One)}
+            P63, Neg(P63), Sub(P63, One),
+            \* differences between 2^53 and 2^54 ns (104 to 208 days) with every kind of ending (...999, ...001, ...500): not exactly
+            \* representable as doubles, and not at a power of two either
+            [s |-> 1, l |-> <<4999, 123, 6789, 2345, 1>>], [s |-> -1, l |-> <<4999, 123, 6789, 2345, 1>>], [s |-> 1, l |-> <<4001, 123, 6789, 2345, 1>>], [s |-> 1, l |-> <<500, 0, 0, 5000, 1>>]}
 TD(h, mi, s, ms, us, ns) == Dur10(Zero, Zero, Zero, Zero, h, mi, s, ms, us, ns)
 \* exactly representable as doubles: 2^70, 2^52, 3 * 2^60 (literal limbs: deep recursion is not available at constant level)
 P70 == [s |-> 1, l |-> <<3424, 1130, 7174, 1620, 8059, 11>>]
